@@ -106,7 +106,7 @@ class C03(Spec):
         return ob["kind"] in ("S", "P", "X")
 
     def failure_kinds(self):
-        return ("S",)
+        return ("S", "H", "X")
 
     def standins(self, root, tier):
         from pyvc import driver
@@ -905,7 +905,7 @@ class C02(Spec):
         return "/F/structure" in ob["name"] or "/F/verdict" in ob["name"] or ob["kind"] == "X"
 
     def failure_kinds(self):
-        return ("X", "F")
+        return ("X", "F", "H")
 
     def table_obligations(self, repo, tabs):
         return resolver_table_obligations(repo)
